@@ -25,7 +25,7 @@ CONFIGS_THOROUGH = [
     ("Part", ["Color", "Color3uint8", "BrickColor", "brickColor", "Size", "size"], 2),
     ("Part", ["Color3uint8", "brickColor", "size"], 3),
     ("ScreenGui", ["IgnoreGuiInset", "ScreenInsets"], 3),
-    ("Part", ["Color", "Color3uint8", "BrickColor", "Size"], 3),
+    ("Part", ["Color", "Color3uint8", "BrickColor"], 3),
     ("TextLabel", ["Font", "FontFace", "Text"], 3),
     ("ImageLabel", ["Image", "ImageContent", "ImageColor3"], 3),
     ("MeshPart", ["MeshId", "MeshContent", "TextureID", "TextureContent"], 2),
